@@ -1,7 +1,8 @@
 #!/usr/bin/env bash
 # tools/tryall.sh <PID> [check ids...] — verify every seed under /tmp/seed-PID/seedout-PID, run the check(s), archive under seeded/
 PID=$1; shift; CHECKS=${@:-$PID}
-for d in /tmp/seed-$PID/seedout-$PID/*/; do
+SO=${SEEDOUT:-seedout}; TAG=${SEEDTAG:-}
+for d in /tmp/seed-$PID/$SO-$PID/*/; do
   i=$(basename $d)
   res=""
   for c in $CHECKS; do
@@ -11,7 +12,7 @@ for d in /tmp/seed-$PID/seedout-$PID/*/; do
     res="$res [$c] $verdict"
     echo "== $PID seed $i check $c :: $valid :: $verdict"
   done
-  dst=seeded/$PID-$i; mkdir -p $dst
+  dst=seeded/$PID-$TAG$i; mkdir -p $dst
   cp $d/patch.diff $dst/; cp $d/demo_test.go $dst/ 2>/dev/null; cp -r $d/demo $dst/ 2>/dev/null
   python3 - "$d/meta.json" "$dst/meta.json" "$valid" "$res" <<'PY'
 import json,sys
